@@ -1,6 +1,7 @@
 (** Entry.v — one entry point per model function for the correspondence check:
     the harness sends  ["op", arg]  as one line of ASCII JSON, the model answers one line. *)
 From InToto.Model Require Import Base Json Rule Glob Rules Utf8 Match DirDigest Canon EntryVerify.
+From InToto.Model Require EntrySign.
 From InToto.Model Require EntryRun.
 From InToto.Model Require Import EntryResolve.
 From InToto.Model Require EntryRecord.
@@ -121,6 +122,7 @@ Definition op_fnmatch : str := [102;110;109;97;116;99;104]%N.
 Definition run_op (op : str) (arg : json) : json :=
   match run_op_resolve op arg with Some j => j | None =>
   if eqs op op_verify then verify_op arg
+  else if EntrySign.handles_sign op then EntrySign.run_op_sign_total op arg
   else if EntryRecord.handles op then EntryRecord.run op arg
   else if eqs op op_canon then canon_op arg
   else if eqs op op_match_products then match_products_op arg
